@@ -6,7 +6,7 @@ import PpciVerif.Model.IRFrag
   ftab <bits>:<hex of text>;…  | ftab -      float table supplied by CPython: `str(float)` of every float
                                              constant / `float(text)` of every float literal -> ok
   print <sexpr>      -> ok <hex of the text Model.IRText.printModule produces>
-  toks <sexpr>       -> ok 1 iff lexAll (printModule m) = toksModule m
+  toks <sexpr>       -> ok 1 iff tokenize (printModule m) = ok (toksModule m)   (hypothesis `hlex` of Props.C15.roundtrip_partial)
   read <hex text>    -> ok <sexpr of the module Model.IRText.readModule builds> | err <ExceptionName>
   rt <sexpr>         -> read (print m)
   frag <sexpr>       -> ok 1 | ok 0 <reason>,…      (Model.IRFrag.fragText / fragReport)
@@ -51,7 +51,10 @@ def step (st : St) (line : String) : St × String :=
     | none => (st, "bad-op")
   else if line.startsWith "toks " then
     match parseModule (line.drop 5).toString with
-    | some m => (st, if lexAll (printModule (fmtOf st) m) = toksModule (fmtOf st) m then "ok 1" else "ok 0")
+    | some m =>
+      (st, match tokenize (printModule (fmtOf st) m) with
+        | .ok ts => if ts = toksModule (fmtOf st) m then "ok 1" else "ok 0"
+        | .error _ => "ok 0")
     | none => (st, "bad-op")
   else if line.startsWith "read " then
     match charsOfHex (line.drop 5).toString with
